@@ -117,16 +117,15 @@ def enc_cont(c):
 
 
 def enc_stack(values):
-    """vm_stack#_ depth:(## 24) stack:(VmStackList depth)."""
-    def lst(vals):
-        if not vals:
-            return RCell('')
-        b, r = enc_value(vals[-1])
-        return RCell(b, [lst(vals[:-1])] + r)
+    """vm_stack#_ depth:(## 24) stack:(VmStackList depth).  Iterative: stacks may be as deep as a cell chain (1023)."""
     if not values:
         return RCell(enc_uint(0, 24))
+    rest = RCell('')
+    for v in values[:-1]:
+        b, r = enc_value(v)
+        rest = RCell(b, [rest] + r)
     b, r = enc_value(values[-1])
-    return RCell(enc_uint(len(values), 24) + b, [lst(values[:-1])] + r)
+    return RCell(enc_uint(len(values), 24) + b, [rest] + r)
 
 
 # ---- decoder (slice-tolerant: any valid VmCellSlice window) ----
@@ -168,12 +167,18 @@ def dec_stack(cell):
 def _dec_list(rd, n):
     if n == 0:
         return []
-    rest = rd.ref()
-    r2 = _R(rest)
-    head = _dec_list(r2, n - 1)
-    if not r2.done():
-        raise VmModelError('trailing data in list cell')
-    return head + [dec_value(rd)]
+    readers = []
+    for _ in range(n):
+        readers.append(rd)
+        rd = _R(rd.ref())
+    if not rd.done():
+        raise VmModelError('trailing data in the nil cell')
+    out = []
+    for k, r in enumerate(reversed(readers)):
+        out.append(dec_value(r))
+        if k < n - 1 and not r.done():
+            raise VmModelError('trailing data in list cell')
+    return out
 
 
 def dec_value(rd):
